@@ -12,6 +12,7 @@ import (
 	"math/rand"
 	"strconv"
 	"sync"
+	"time"
 
 	"vf/ev"
 	"vf/sip"
@@ -280,6 +281,68 @@ func scenarioDatagram() int {
 			w.Net.Forget("")
 		}
 		w.Net.Trim()
+	}
+	// a flood: thousands of small datagrams as fast as the socket takes them (not judged - the
+	// kernel may drop any of them), then, once the proxy has worked them off, complete 4 KiB
+	// datagrams one at a time: each of them is relayed as its own image
+	if run.Violations() <= 6 && w.Health() == "" {
+		svc := 1 % len(w.Svcs)
+		dst := fmt.Sprintf("%s:%d", w.Svcs[svc].IP, w.Svcs[svc].UDP)
+		nflood := ev.Pick(20000, 60000)
+		for i := 0; i < nflood; i++ {
+			id := fmt.Sprintf("fl%d", i)
+			m := wire.StdRequest(id, "OPTIONS", fmt.Sprintf("sip:svc%d.verif.test", svc), "udp", "placeholder", 0)
+			wire.SetHeader(m, "Via", fmt.Sprintf("SIP/2.0/UDP %s;branch=z9hG4bKvf%s", srcs[i%len(srcs)].Addr, id))
+			if w.Svcs[svc].HasDef {
+				wire.SetHeader(m, "To", "<tel:+15550178>")
+			}
+			srcs[i%len(srcs)].Send(dst, m.Bytes(), id)
+			if i%100 == 99 {
+				// (about as fast as the receiving side takes them out of the socket: few are dropped by
+				// the kernel, most queue up inside the proxy)
+				time.Sleep(time.Millisecond)
+			}
+		}
+		// until a sentinel comes through again
+		through := false
+		for try := 0; try < 40 && !through; try++ {
+			bid := fmt.Sprintf("bflood%d", try)
+			srcs[0].Send(dst, w.SentinelMsg(wire.Path{UA: 0, Svc: svc, Proto: "udp"}, bid), bid)
+			_, through = w.Net.WaitCase(bid, func(o []*wire.Obs) bool { return len(o) > 0 }, 1500*time.Millisecond)
+			w.Net.Forget(bid)
+		}
+		w.Net.Drain()
+		for i := 0; i < nflood; i++ {
+			w.Net.Forget(fmt.Sprintf("fl%d", i))
+		}
+		w.Net.Trim()
+		afterOK := 0
+		for k := 0; through && k < 10; k++ {
+			id := fmt.Sprintf("af%d", k)
+			m := wire.StdRequest(id, "MESSAGE", fmt.Sprintf("sip:svc%d.verif.test", svc), "udp", "placeholder", 0)
+			wire.SetHeader(m, "Via", fmt.Sprintf("SIP/2.0/UDP %s;branch=z9hG4bKvf%s", srcs[0].Addr, id))
+			if w.Svcs[svc].HasDef {
+				wire.SetHeader(m, "To", "<tel:+15550179>")
+			}
+			body := []byte(randLetters(g.R, 4000+k*13))
+			wire.WithBody(m, body)
+			srcs[0].Send(dst, m.Bytes(), id)
+			obs, _ := w.Net.WaitCase(id, func(o []*wire.Obs) bool { return len(o) >= 1 }, w.BarrierWait)
+			if len(obs) != 1 || obs[0].Msg == nil || !bytes.Equal(obs[0].Msg.Body, body) {
+				if len(obs) == 0 && wire.UDPDrops() > 0 && k == 0 {
+					run.Inconclusive(1)
+					continue
+				}
+				run.Violation("after a flood of small datagrams a complete 4 KiB datagram sent on its own is not relayed as its own image", map[string]any{"flood": nflood, "datagram": k, "bytes": len(m.Bytes()), "copies_seen": len(obs)})
+				break
+			}
+			afterOK++
+			run.Eval(fmt.Sprintf("after-flood|%d", k))
+		}
+		if !through {
+			run.Inconclusive(10)
+		}
+		run.Observe("complete_datagrams_relayed_after_the_flood", afterOK)
 	}
 	run.Observe("datagrams_sent", sent)
 	run.Observe("datagrams_relayed_as_their_own_image", relayed)
